@@ -1,6 +1,7 @@
 package engines
 
 import (
+	"context"
 	"encoding/json"
 	"fmt"
 	"math/rand/v2"
@@ -26,6 +27,7 @@ type PoolCase struct {
 	Policy     string `json:"policy,omitempty"` // first | last | random
 	PSeed      uint64 `json:"pseed,omitempty"`
 	SleepUs    int    `json:"sleep_us,omitempty"`
+	LateWaits  bool   `json:"late_waits,omitempty"` // the second goroutine calls Wait too, after its Submits: every waiter gets the barrier
 	IdleMs     int    `json:"idle_ms,omitempty"`    // after every round the pool is left idle this long; nothing may run meanwhile
 	LateTasks  int    `json:"late_tasks,omitempty"` // gated: tasks submitted by a second goroutine while the waiter is already inside Wait (its own tasks still parked); they are released first
 	DwellMs    int    `json:"dwell_ms,omitempty"` // gated: wait this long at the first two quiescent points with a blocked submitter
@@ -156,7 +158,7 @@ func runPoolCase(cs *PoolCase) *PoolObs {
 		if subs < 1 {
 			subs = 1
 		}
-		var waitReturned atomic.Bool
+		var waitReturned, lateWaitReturned atomic.Bool
 		var waitSeq int64
 		done := make(chan struct{})
 		go func() { // waiter: joins the submitters, then Wait (sync.WaitGroup's contract: no Add-from-zero concurrent with Wait)
@@ -186,6 +188,10 @@ func runPoolCase(cs *PoolCase) *PoolObs {
 				<-lateGo
 				for id := pre; id < n; id++ {
 					pool.Submit(task(id))
+				}
+				if cs.LateWaits {
+					pool.Wait()
+					lateWaitReturned.Store(true)
 				}
 			}()
 		}
@@ -253,6 +259,9 @@ func runPoolCase(cs *PoolCase) *PoolObs {
 					lateStarted = true
 					close(lateGo)
 					continue
+				}
+				if cs.LateWaits && lateWaitReturned.Load() && unfinished > 0 {
+					o.WaitEarly = append(o.WaitEarly, fmt.Sprintf("round %d: a second goroutine's Wait (overlapping the first waiter's) returned while %d previously submitted tasks, its own among them, were still unfinished", round, unfinished))
 				}
 				if cs.LateTasks > 0 {
 					preUnfinished := 0
@@ -484,7 +493,15 @@ func poolLoop(c *Cfg, n int, gen func(i int) *PoolCase, each func(i int, cs *Poo
 
 func init() {
 	register(&Engine{Prop: "C08", Doc: "concurrency limit hard and usable", Gated: true, Run: runC08, Replay: func(c *Cfg, s json.RawMessage) {
-		if isPoolCase(s) {
+		var nc NestedCase
+		if json.Unmarshal(s, &nc) == nil && nc.Nested {
+			fs, seen, incon := runNestedCase(&nc)
+			fmt.Println("inner executions in flight:", seen, incon)
+			for _, f := range fs {
+				fmt.Printf(" * finding %s: %s\n", f.Key, f.Detail)
+				c.Rep.Violate("C08", "C08:"+f.Key, f.Detail, nc)
+			}
+		} else if isPoolCase(s) {
 			replayPool(c, "C08", s)
 		} else {
 			replayBatch(c, "C08", s)
@@ -600,6 +617,32 @@ func runC08(c *Cfg) {
 			r.Sample("limit", map[string]any{"case": cs, "points": o.Points[:minInt(len(o.Points), 8)], "high_water": o.HighWater})
 		}
 	}, "C08")
+	// nested batches (an item's exec runs another batch with the same concurrency): limits are per batch
+	func() {
+		defer setGCOff()()
+		for cc := 1; cc <= 4; cc++ {
+			if !c.Mine(cc) {
+				continue
+			}
+			nc := &NestedCase{Family: "nested-batches", C: cc, Nested: true}
+			logCase(c, nc)
+			fs, seen, incon := runNestedCase(nc)
+			r.Eval()
+			if incon != "" {
+				r.Incon(incon)
+				return
+			}
+			r.Count("nested.runs", 1)
+			r.HighWater("nested.inner_executions_in_flight", int64(seen))
+			for _, f := range fs {
+				r.Violate("C08", "C08:"+f.Key, f.Detail, nc)
+			}
+			r.Nontrivial(fmt.Sprintf("nested %d", cc))
+			if len(fs) > 0 {
+				return // stuck goroutines left behind
+			}
+		}
+	}()
 	// the same directly on NewWorkerPool(w), w in -1..16
 	var pcs []*PoolCase
 	for w := -1; w <= 16; w++ {
@@ -659,6 +702,7 @@ func runC12(c *Cfg) {
 				continue
 			}
 			pcs = append(pcs, &PoolCase{Family: "late-submitter", Workers: w, Tasks: pre, LateTasks: pre + 1 + (w+pre)%3, Submitters: 1, Rounds: 1, Gated: true, Policy: "late-first"})
+			pcs = append(pcs, &PoolCase{Family: "two-waiters", Workers: w, Tasks: pre, LateTasks: 1 + (w+pre)%3, LateWaits: true, Submitters: 1, Rounds: 1, Gated: true, Policy: []string{"first", "late-first", "random"}[(w+pre)%3], PSeed: uint64(w*31 + pre)})
 		}
 	}
 	poolLoop(c, len(pcs), func(i int) *PoolCase { return pcs[i] }, func(i int, cs *PoolCase, o *PoolObs) {
@@ -685,4 +729,85 @@ func runC12(c *Cfg) {
 			r.Nontrivial(fmt.Sprintf("f %d %d %d %d", cs.Workers, cs.Tasks, cs.Submitters, cs.Rounds))
 		}
 	}, "C12")
+}
+
+// NestedCase: an outer batch (concurrency C, C items) whose exec runs an inner batch (concurrency C, C items);
+// every inner item parks. Each batch has its own limit, so all C*C inner executions must be in flight together.
+type NestedCase struct {
+	Family string `json:"family"`
+	C      int    `json:"c"`
+	Nested bool   `json:"nested"`
+}
+
+func runNestedCase(cs *NestedCase) (fs []scen.Finding, parkedSeen int, incon string) {
+	self := quiesce.Self()
+	var mu sync.Mutex
+	parked := map[int]chan struct{}{}
+	c := cs.C
+	inner := func(o int) flyt.Node {
+		return flyt.NewBatchNode().WithBatchConcurrency(c).
+			WithPrepFunc(func(ctx context.Context, s *flyt.SharedStore) ([]flyt.Result, error) {
+				r := make([]flyt.Result, c)
+				for i := range r {
+					r[i] = flyt.NewResult(o*100 + i)
+				}
+				return r, nil
+			}).
+			WithExecFuncAny(func(ctx context.Context, v any) (any, error) {
+				ch := make(chan struct{})
+				mu.Lock()
+				parked[v.(int)] = ch
+				mu.Unlock()
+				<-ch
+				return v, nil
+			})
+	}
+	outer := flyt.NewBatchNode().WithBatchConcurrency(c).
+		WithPrepFunc(func(ctx context.Context, s *flyt.SharedStore) ([]flyt.Result, error) {
+			r := make([]flyt.Result, c)
+			for i := range r {
+				r[i] = flyt.NewResult(i)
+			}
+			return r, nil
+		}).
+		WithExecFuncAny(func(ctx context.Context, v any) (any, error) {
+			_, err := flyt.Run(ctx, inner(v.(int)), flyt.NewSharedStore())
+			return v, err
+		})
+	done := make(chan struct{})
+	go func() {
+		defer close(done)
+		defer func() { recover() }()
+		_, _ = flyt.Run(context.Background(), outer, flyt.NewSharedStore())
+	}()
+	var st quiesce.Stats
+	for round := 0; round < 10*c*c+10; round++ {
+		if _, ok := quiesce.Wait(self, quiesceBudget, &st); !ok {
+			return nil, parkedSeen, "quiescence not reached in nested batch case"
+		}
+		select {
+		case <-done:
+			return fs, parkedSeen, ""
+		default:
+		}
+		mu.Lock()
+		n := len(parked)
+		if n > parkedSeen {
+			parkedSeen = n
+		}
+		if round == 0 && n != c*c {
+			fs = append(fs, scen.Finding{Prop: "C08", Key: "nested-under-use", Detail: fmt.Sprintf("outer batch (c=%d, %d items) whose items each run an inner batch (c=%d, %d items): %d inner executions are in flight at the first quiescent point, want %d — each batch must be able to use its own limit fully, also while another batch is running", c, c, c, c, n, c*c)})
+		}
+		if n == 0 {
+			mu.Unlock()
+			fs = append(fs, scen.Finding{Prop: "C08", Key: "nested-deadlock", Detail: fmt.Sprintf("nested batches with c=%d: everything is blocked, nothing is parked, the outer run has not returned", c)})
+			return fs, parkedSeen, ""
+		}
+		for k, ch := range parked {
+			close(ch)
+			delete(parked, k)
+		}
+		mu.Unlock()
+	}
+	return fs, parkedSeen, "nested batch case did not finish"
 }
